@@ -209,15 +209,21 @@ pub(crate) mod verif_pi {
         let mut n_adv = 0usize;
         let mut loaded = NULL_FRAME;
         let mut last_was_save_of_current = false;
-        for r in reqs {
-            match r {
+        let nreq = reqs.len();
+        assert!(nreq <= 2 * w + 4);
+        let mut ri = 0;
+        while ri < nreq {
+            // (inspected by reference and forgotten afterwards: moving GgrsRequest values out of the
+            //  vector drags their Arc/Vec drop glue into the formula)
+            match &reqs[ri] {
                 GgrsRequest::SaveGameState { cell, frame } => {
+                    let frame = *frame;
                     assert!(frame == gf, "C02: save names the frame the game is at");
                     cell.save(frame, Some(st), Some(st as u128));
                     last_was_save_of_current = frame == c;
-                    core::mem::forget(cell);
                 }
                 GgrsRequest::LoadGameState { cell, frame } => {
+                    let frame = *frame;
                     assert!(loaded == NULL_FRAME && n_adv == 0, "at most one load, first");
                     assert!(frame < gf && frame >= gf - w as Frame, "C02/C04: load an earlier frame inside the window");
                     assert!(frame >= fl0, "never behind the confirmed frame");
@@ -228,7 +234,6 @@ pub(crate) mod verif_pi {
                     }
                     gf = frame;
                     loaded = frame;
-                    core::mem::forget(cell);
                 }
                 GgrsRequest::AdvanceFrame { inputs } => {
                     assert!(inputs.len() == 2);
@@ -257,10 +262,11 @@ pub(crate) mod verif_pi {
                     gf = f + 1;
                     n_adv += 1;
                     last_was_save_of_current = false;
-                    core::mem::forget(inputs);
                 }
             }
+            ri += 1;
         }
+        core::mem::forget(reqs);
         let c2 = s.sync_layer.current_frame();
         assert!(gf == c2, "C02: game frame == current_frame() after the list");
         assert!(c2 == c || c2 == c + 1, "C02: at most one new frame");
